@@ -406,6 +406,14 @@ def r3(ctx, bearing):
         vs = [c for c in f.calls if c.name == "visit"]
         ok = bool(uv) and bool(vs) and any(any(o.kind == "call" and o.ref in uv for o in deep_roots(prog, f, c.args[1])) for c in vs)
         ctx.ob("R3", "Transformation::visit_dependency", ok, "sorter.visit receives the variable returned by used_vars()", where=f.loc())
+    # transformations (and utils) are applied/registered in the order get_order returns: it must be the post-order vector
+    from . import c13
+    from ..core import Ctx
+    sub = Ctx("C13", ctx.tier, prog)
+    c13.r2(sub)
+    for o in sub.obligations:
+        if "get_order returns" in o["key"] or "post-order" in o["key"] or "Transform::deserialize builds" in o["key"]:
+            ctx.ob("R3", o["key"].split(":", 1)[1], o["ok"], o["detail"], where=o["where"])
     src = prog.find_fns(r"transformation::Transformation::<T>::source$|transformation::Transformation::<.*>::source$")
     tadt = prog.adts.get("ast_grep_config::transform::transformation::Transformation")
     if tadt and src:
